@@ -377,6 +377,8 @@ def check(prop, tier, seed, t0):
     if crashed:
         for c in crashed:
             print('CHECKER-ERROR %s: %s' % (c.get('name'), c.get('detail')))
+        if any(v.get('confirmed') for v in viol_records):
+            return 1        # a violation replayed on the real code stands whatever happened elsewhere in the run
         return 3
     if n_viol:
         return 1
